@@ -186,8 +186,19 @@ func (n *AbsfsNFS) UpdateTuningOptions(fn func(*TuningOptions)) {
 		updated.Timeouts = &tCopy
 	}
 	fn(&updated)
+	normalizeTuning(&updated)
 	n.tuning.Store(&updated)
 	n.applyTuningSideEffects(old, &updated)
+}
+
+// normalizeTuning gives zero, negative and nil fields of t the defaults New()
+// applies, so that no request ever sees a non-positive transfer size or
+// timeout, or a nil Timeouts pointer.
+func normalizeTuning(t *TuningOptions) {
+	eo := exportOptionsFromSnapshots(t, &PolicyOptions{})
+	eo.hasExplicitTCPSettings = true // keep the TCP flags as they are
+	applyOptionDefaults(&eo)
+	*t = *tuningFromExportOptions(&eo)
 }
 
 // UpdatePolicyOptions swaps policy using drain-and-swap.
@@ -216,6 +227,10 @@ func (n *AbsfsNFS) UpdatePolicyOptions(newPolicy PolicyOptions) error {
 	if newPolicy.RateLimitConfig != nil {
 		rc := *newPolicy.RateLimitConfig
 		snapshot.RateLimitConfig = &rc
+	} else {
+		// same default as New()
+		rc := DefaultRateLimiterConfig()
+		snapshot.RateLimitConfig = &rc
 	}
 	if newPolicy.TLS != nil {
 		snapshot.TLS = newPolicy.TLS.Clone()
@@ -223,8 +238,8 @@ func (n *AbsfsNFS) UpdatePolicyOptions(newPolicy PolicyOptions) error {
 	n.policy.Store(&snapshot)
 
 	// Update rate limiter while still holding the write lock (H2 fix)
-	if newPolicy.EnableRateLimiting && newPolicy.RateLimitConfig != nil {
-		n.rateLimiter = NewRateLimiter(*newPolicy.RateLimitConfig)
+	if newPolicy.EnableRateLimiting {
+		n.rateLimiter = NewRateLimiter(*snapshot.RateLimitConfig)
 	} else if !newPolicy.EnableRateLimiting {
 		n.rateLimiter = nil
 	}
